@@ -20,6 +20,8 @@ pub enum DistProfile {
     Wild,
     /// unbounded / heavy-tailed / enormous values (clamping, C04)
     Huge,
+    /// constants on a coarse millisecond grid, so that expiries, firings and events coincide
+    Grid,
 }
 
 #[derive(Clone, Copy, Debug, PartialEq, Eq)]
@@ -210,7 +212,9 @@ pub fn candidate_dist() -> BoxedStrategy<DistSpec> {
             .prop_map(|(trials, p)| DistKind::Binomial { trials, probability: Fx(p) }),
         select(vec![1.0000000000000002e42, 1e43, 1e100, 1e300, f64::MAX]).prop_map(|l| DistKind::Poisson { lambda: Fx(l) }),
     ];
-    let kind = prop_oneof![12 => wild_kind(), 1 => beyond];
+    // plus anything at all (NaN / infinite / negative parameters): validation must reject what it cannot sample
+    let anything = any_dist().prop_map(|d| d.kind);
+    let kind = prop_oneof![12 => wild_kind(), 1 => beyond, 2 => anything];
     (kind, start_max_wild())
         .prop_map(|(kind, (s, m))| DistSpec { kind, start: Fx(s), max: Fx(m) })
         .boxed()
@@ -319,6 +323,13 @@ pub fn dist(profile: DistProfile, u: DistUse) -> BoxedStrategy<DistSpec> {
         ]
         .boxed(),
         DistProfile::Huge => huge_dist(),
+        DistProfile::Grid => match u {
+            DistUse::Limit => select(vec![1.0, 2.0, 3.0, 0.0]).prop_map(DistSpec::constant).boxed(),
+            DistUse::CounterValue => select(vec![1.0, 2.0, 3.0]).prop_map(DistSpec::constant).boxed(),
+            _ => select(vec![0.0, 1000.0, 1000.0, 2000.0, 3000.0, 4000.0, 5000.0, 10000.0])
+                .prop_map(DistSpec::constant)
+                .boxed(),
+        },
     }
 }
 
